@@ -920,6 +920,10 @@ class Exec(object):
                 ('%s_item%d' % (o.cls, const_int(i.t))) in self.reg.specfuns:
             sf = self.reg.specfuns['%s_item%d' % (o.cls, const_int(i.t))]
             return self.val(wrap(sf.apply(o.ident), sf.restype), st)
+        if isinstance(o, VOpaque) and isinstance(i, VStr) and const_str(i.t) is not None and \
+                ('%s_key_%s' % (o.cls, const_str(i.t))) in self.reg.specfuns:
+            sf = self.reg.specfuns['%s_key_%s' % (o.cls, const_str(i.t))]
+            return self.val(wrap(sf.apply(o.ident), sf.restype), st)
         if isinstance(o, VPy) and isinstance(o.obj, (tuple, list, dict)):
             k = i.obj if isinstance(i, VPy) else (const_int(i.t) if isinstance(i, VInt) else const_str(i.t))
             try:
